@@ -140,6 +140,14 @@ def gen_grid(rng, tier):
             lines.append("g.fill " + " ".join(map(fbits, data)))
             for kind in ["multicol", "raw", "restart", "rawbin", "restartbin"]:
                 lines.append("g.rt " + kind)
+        if mult == nd:         # a gradient grid (one value per variable and point), linked to its count grid or not
+            cnts = [rng.choice([0, 0, 1, 2, 3, 7, 1000]) for _ in range(npts)]
+            nocount = rng.rand() < 0.3
+            gdat = [(0.0 if (cnts[a // mult] == 0 and not nocount) else data[a]) for a in range(npts * mult)]
+            lines.append("g.fill " + " ".join(map(fbits, gdat)))
+            lines.append("g.counts " + " ".join(map(str, cnts)))
+            for kind in ["multicol", "multicoladd", "raw", "restart", "rawbin", "restartbin"]:
+                lines.append("g.rtgrad " + kind + (" nocount" if nocount else ""))
         # init_from_boundaries
         l0 = rng.dyadic(-4, 4, 2); w0 = rng.choice([0.25, 0.5, 1.0, 0.1, 0.3, rng.uniform(0.1, 1.0)])
         hi = l0 + rng.randint(1, 12) * w0 + rng.choice([0.0, 0.0, 0.3 * w0, -0.2 * w0])
@@ -251,6 +259,28 @@ def oracle(case, out):
                 rper = vals(out, idx, "per")
                 if rper != gp:
                     viol.append("multicol round trip: periodicity flags %r became %r" % (gp, rper))
+        elif t[0] == "g.counts" and g:
+            gcnt = [int(x) for x in t[1:]]
+        elif t[0] == "g.rtgrad" and g:
+            ok = vals(out, idx, "ok")
+            what = "gradient grid %s its count grid, %s form" % ("without" if "nocount" in t else "with", t[1])
+            if ok is None:
+                viol.append("no result for the round trip (%s)" % what); continue
+            if ok[0] != 1:
+                viol.append("%s: could not be read back" % what); continue
+            rnx = vals(out, idx, "nx"); rdata = vals(out, idx, "data") or []; rcnt = vals(out, idx, "cnt") or []
+            if rnx != g[2]:
+                viol.append("%s: sizes %r became %r" % (what, g[2], rnx)); continue
+            fac = 2.0 if t[1] == "multicoladd" else 1.0
+            exact = t[1] in ("rawbin", "restartbin") and "nocount" in t     # (with a count grid every form carries sum / count)
+            bad = [i for i in range(len(gdata)) if i >= len(rdata) or not ((rdata[i] == fac * gdata[i]) if exact else abs(rdata[i] - fac * gdata[i]) <= 1e-12 * max(abs(gdata[i]), 1e-300) + 0.0)]
+            if len(rdata) != len(gdata) or bad:
+                i = bad[0] if bad else None
+                viol.append("%s: data changed (entry %s, variable %s of its point: written %r, %s read back %r)" % (
+                    what, i, (i % g[0]) if i is not None else None, gdata[i] if i is not None else None,
+                    "added to itself and" if fac == 2.0 else "", rdata[i] if i is not None and i < len(rdata) else None)); continue
+            if "nocount" not in t and rcnt != [int(fac) * c_ for c_ in gcnt]:
+                viol.append("%s: counts %r became %r" % (what, gcnt, rcnt))
         elif t[0] == "g.bin" and g:
             i = int(t[1]); x = bits_to_f(t[2])
             b = vals(out, idx, "bin")
